@@ -28,7 +28,7 @@ bool vf_nondet_bool(void) { return (nextv() & 1) != 0; }
 long long vf_nondet_i64(void) { return nextv(); }
 void vf_witness(void) { printf("VF_WITNESS_REACHED\n"); }
 void vf_note(const char *what, long long v) { printf("VF_NOTE %s %lld\n", what, v); }
-int vf_nd_count; long long vf_nd_val;
+int vf_nd_count; long long vf_nd_val; unsigned char vf_nd_ok = 1;
 void VF_HARNESS(void);
 #ifdef VF_LL2C
 void __ll2c_global_ctors(void);
